@@ -1,4 +1,5 @@
 import SnaxVerif.Lemmas.SchedWF
+import SnaxVerif.Lemmas.SchedFromMap
 /-!
 # C03 — scheduling preserves the iteration space
 
@@ -30,10 +31,9 @@ theorem addDim_image_eq (s : Schedule) : imageS (addDim s) = imageS s := addDim_
 theorem clearUnused_image_eq (s : Schedule) : imageS (clearUnused s) = imageS s :=
   maskSched_image (· != 1) (by intro b hb; simpa using hb) s
 
-/-- `canonicalize()` (keep dims with bound > 1) does not change the visited tuples; needs bounds > 0,
-which `SchedulePattern.__init__` enforces. -/
-theorem canonicalize_image_eq (s : Schedule) (hwf : WF s) : imageS (canonicalize s) = imageS s := by
-  rw [canonicalize_eq_clearUnused hwf, clearUnused_image_eq]
+/-- `canonicalize()` (drop dims with bound == 1, as in the repaired /repo) does not change the visited tuples. -/
+theorem canonicalize_image_eq (s : Schedule) : imageS (canonicalize s) = imageS s := by
+  rw [canonicalize_eq_clearUnused, clearUnused_image_eq]
 
 /-- **Every** schedule yielded by `scheduler_backtrack` — for an arbitrary matcher, arbitrary extra
 checks, every template (bounded or unbounded dims), every start level `k`, every fuel, every position in
@@ -56,7 +56,7 @@ theorem C03_scheduler (mtch : Template → Schedule → Except Err Bool)
     (imageS r).Perm (imageS s) := by
   have hwfc : WF (canonicalize s) := WF_maskSched hwf
   have := (C03_backtrack mtch checks tmpl fuel _ 1 rs hwfc h r (List.mem_of_getElem? hr)).2
-  rw [canonicalize_image_eq s hwf] at this
+  rw [canonicalize_image_eq s] at this
   exact this
 
 /-- The `WF` hypothesis above is exactly what `SchedulePattern.__init__` enforces: every schedule the
@@ -65,11 +65,41 @@ zero-extent dimension never reaches `canonicalize` / `tile_dim` / the scheduler.
 theorem constructed_is_wf (bounds : List Int) (ops : List Operand) (s : Schedule)
     (h : construct bounds ops = .ok s) : WF s := construct_wf h
 
-/-- Without that guard the property fails: a zero-extent dim is dropped by `canonicalize` like a unit dim
-(0 iterations become 8). -/
-theorem canonicalize_zero_bound_fails :
-    ∃ s : Schedule, imageS s = [] ∧ (imageS (canonicalize s)).length = 8 :=
-  ⟨⟨[0, 8], [⟨[[1, 0], [0, 1]], [0, 0]⟩]⟩, by decide, by decide⟩
+/-! ### construction path AffineMap -> (A, b) (`AffineTransform.from_affine_map`, model `AT.fromMap`) -/
+
+/-- Full statement (false of the code: a raw product of two dims is accepted and mis-converted; such a tree is
+not an affine expression and cannot be parsed or built with xDSL's `*`, see `C19.fromMap_nonlinear_fails`). -/
+def fromAffineMap_statement : Prop :=
+  ∀ (n : Nat) (rs : List AExpr) (t : AT.Transform), AT.fromMap n rs = .ok t →
+    ∀ x : List Nat, x.length = n → (evalOp ⟨t.A, t.b⟩ x).map some = rs.map fun e => e.eval (AT.envOf (intPoint x))
+
+/-- Whenever the construction ACCEPTS a map, the operand `(A, b)` every schedule is built from indexes, at
+every iteration point, exactly the element the map indexes (clause `mulConstSide`: every product has a
+dimension-free side, i.e. the results are affine expressions). -/
+theorem fromAffineMap_sound_partial (n : Nat) (rs : List AExpr) (t : AT.Transform) (h : AT.fromMap n rs = .ok t)
+    (mulConstSide_clause : ∀ e ∈ rs, AT.mulConstSide e = true) (x : List Nat) (hx : x.length = n) :
+    (evalOp ⟨t.A, t.b⟩ x).map some = rs.map fun e => e.eval (AT.envOf (intPoint x)) :=
+  fromMap_operand_eval n rs t h mulConstSide_clause x hx
+
+theorem fromAffineMap_fails : ¬ fromAffineMap_statement := by
+  intro h
+  have := h 2 [.bin .mul (.dim 0) (.dim 1)] ⟨2, [[0, 0]], [0]⟩ (by rfl) [2, 3] rfl
+  revert this
+  decide
+
+/-- A floordiv / mod / ceildiv at ANY position of ANY result expression (top level, lhs or rhs of an addition,
+nested, under a multiplication by a constant) makes the construction raise `ValueError`: nothing non-linear
+is ever linearised silently. -/
+theorem fromAffineMap_rejects_nonlinear (n : Nat) (rs : List AExpr) (e : AExpr) (he : e ∈ rs)
+    (hnl : AT.noDivMod e = false) : AT.fromMap n rs = .error .valueError :=
+  fromMap_rejects n rs e he hnl
+
+/-- non-vacuity: `d1 + (d0 floordiv 2) * 16` and `d0 + d1 floordiv 2` (non-linear term in the rhs) are rejected,
+`d1 + d0 * 16` is accepted with `A = [[16, 1]]` -/
+example : AT.fromMap 2 [.bin .add (.dim 1) (.bin .mul (.bin .fdiv (.dim 0) (.const 2)) (.const 16))] = .error .valueError := by
+  decide
+example : AT.fromMap 2 [.bin .add (.dim 0) (.bin .fdiv (.dim 1) (.const 2))] = .error .valueError := by decide
+example : AT.fromMap 2 [.bin .add (.dim 1) (.bin .mul (.dim 0) (.const 16))] = .ok ⟨2, [[16, 1]], [0]⟩ := by rfl
 
 /-- Why the divisibility guard is the mechanism: without it `tile_dim` loses iterations
 (bound 3 tiled by 2 gives a 1×2 box). -/
